@@ -184,6 +184,7 @@ type Enc struct {
 	elemPtrTypes map[string]bool
 	baseAlloc map[string]Term
 	loopStart int
+	memAxiom map[int]bool // indices of lines that are quantified append/copy axioms
 	protected map[string][]Term // heap key -> refs whose entries survive havocs
 	fieldInfo map[string]fieldRef
 }
@@ -196,7 +197,7 @@ type fieldRef struct {
 func NewEnc(w *World, fn *ssa.Function, c *Contract) *Enc {
 	return &Enc{w: w, top: fn, topCon: c, declared: map[string]bool{}, heapSort: map[string]string{}, typeIDs: map[string]int{},
 		typeOf: map[string]types.Type{}, structs: map[string]*types.Struct{}, counters: map[string]int{}, strConsts: map[string]string{},
-		ifaceImplFacts: map[string]bool{}, boxes: map[string]string{}, maxInline: 4, paramTerms: map[string]TT{}, usedContracts: map[string]bool{}, baseAlloc: map[string]Term{}, fieldInfo: map[string]fieldRef{}}
+		ifaceImplFacts: map[string]bool{}, boxes: map[string]string{}, maxInline: 4, paramTerms: map[string]TT{}, usedContracts: map[string]bool{}, baseAlloc: map[string]Term{}, fieldInfo: map[string]fieldRef{}, memAxiom: map[int]bool{}}
 }
 
 func (e *Enc) problem(f string, a ...interface{}) {
@@ -229,6 +230,16 @@ func (e *Enc) def(prefix string, t Term) Term {
 }
 
 func isAtom(s string) bool { return !strings.ContainsAny(s, "( ") }
+
+// assumeMem: a quantified fact describing the result array of an append/copy (may be dropped for obligations inside a
+// later loop, whose havoc makes it irrelevant).
+func (e *Enc) assumeMem(guard, fact Term) {
+	n := len(e.lines)
+	e.assume(guard, fact)
+	if len(e.lines) > n {
+		e.memAxiom[len(e.lines)-1] = true
+	}
+}
 
 func (e *Enc) assume(guard, fact Term) {
 	f := implies(guard, fact)
@@ -675,7 +686,7 @@ func (e *Enc) havocAll(st *State) {
 		keep[k] = e.heapGet(st, k)
 	}
 	for name, g := range e.w.CS.Ghosts {
-		if g.Local {
+		if g.Local || g.Stable {
 			k, _ := e.ghostKey(name)
 			keep[k] = e.heapGet(st, k)
 		}
